@@ -6,7 +6,7 @@ W=/tmp/wt_patch_$$
 git -C /repo worktree add -f $W HEAD >/dev/null 2>&1 || exit 3
 git -C $W apply "$P" 2>/dev/null || { echo "PATCH DOES NOT APPLY: $P"; git -C /repo worktree remove --force $W; exit 2; }
 cd /verif
-o=$(QVET_VERIF=/verif QVET_REPO=$W ./bin/qvet verdicts 2>&1)
+o=$(QVET_VERIF=/verif QVET_REPO=$W ${QVET_BIN:-./bin/qvet} verdicts 2>&1)
 if [ $# -gt 0 ]; then for p in "$@"; do echo "$o" | grep -A${LINES_PER:-6} "^$p " | grep "^$p \|^   \[$p\]" | cut -c1-${CUT:-420}; done
 else echo "$o" | grep "^   \[" | cut -c1-${CUT:-420} | head -${HEAD:-12}; echo "ALARMS:$(echo "$o" | awk '$2=="ALARM"{printf " %s",$1}')"; fi
 git -C /repo worktree remove --force $W
